@@ -4,7 +4,7 @@
 # 1. extracts the library change (patch.diff) and the demonstration test into /verif/seeded/<id>/
 # 2. confirms in the worktree: baseline suite passes with the change (demo moved away),
 #    the demo fails with the change and passes without it
-# 3. applies the patch to /repo, runs the given checks (default: all quick), undoes the patch
+# 3. applies the patch to a scratch worktree of /repo's HEAD, runs the given checks there (default: all quick)
 set -u
 WT=$1; ID=$2; PROP=$3; shift 3
 CHECKS=${*:-C01 C02 C03 C04 C05 C06 C07 C08 C09 C10 C13 C16 C18 C19 C20}
@@ -26,20 +26,23 @@ git checkout -- $(git diff --name-only -- . ':!seeded_demo_test.go')
 go test -vet=off -count=1 -run 'TestSeededDemo' . > /tmp/seeded_without_$ID.log 2>&1; WITHOUT=$?
 git apply $OUT/patch.diff
 echo "--- demo with the change: exit $WITH (want != 0); without: exit $WITHOUT (want 0)"
-# run the checks against /repo with the patch applied
-cd /repo || exit 2
-if ! git diff --quiet; then echo "/repo is dirty, aborting"; exit 2; fi
-git apply $OUT/patch.diff 2>/dev/null || git apply -3 $OUT/patch.diff || { echo "patch does not apply to /repo"; git checkout -- . ; git reset -q; exit 2; }
+# run the checks against a scratch worktree of /repo's HEAD with the patch applied
+# (VERIF_REPO points the build at it; /repo itself is not touched and no evidence file is written)
+SCR=/tmp/mut/eval_$ID
+git -C /repo worktree remove --force $SCR 2>/dev/null
+git -C /repo worktree add -q --detach $SCR HEAD || exit 2
+cd $SCR || exit 2
+git apply $OUT/patch.diff 2>/dev/null || git apply -3 $OUT/patch.diff || { echo "patch does not apply to /repo HEAD"; cd /; git -C /repo worktree remove --force $SCR; exit 2; }
 git reset -q   # a 3-way apply stages the result; the checks only need the working tree
 cd /verif
 CAUGHT=""
 for c in $CHECKS; do
-  ./verifctl check $c > /tmp/seeded_check_${ID}_$c.log 2>&1; rc=$?
+  VERIF_REPO=$SCR ./verifctl check $c > /tmp/seeded_check_${ID}_$c.log 2>&1; rc=$?
   rules=$(grep -A1 '^VIOLATION' /tmp/seeded_check_${ID}_$c.log | grep 'rule=' | sed 's/ *rule=//' | sort -u | tr '\n' ' ')
   echo "    $c exit=$rc $rules"
   if [ $rc -eq 1 ]; then CAUGHT="$CAUGHT $c[$rules]"; fi
   if [ $rc -eq 2 ]; then tail -5 /tmp/seeded_check_${ID}_$c.log; fi
 done
-git -C /repo reset -q; git -C /repo checkout -- .
+git -C /repo worktree remove --force $SCR
 echo "--- caught by:$CAUGHT"
 echo "{\"base\": $BASE, \"demo_with\": $WITH, \"demo_without\": $WITHOUT, \"caught\": \"$CAUGHT\"}" > $OUT/eval.json
